@@ -14,7 +14,7 @@ func U(t string, key string, r ...string) Op {
 	return Op{Kind: OpUpdate, Table: t, Vals: []string{key}, Row: r}
 }
 func D(t string, key string) Op { return Op{Kind: OpDelete, Table: t, Vals: []string{key}} }
-func A() Op                      { return Op{Kind: OpAbort} }
+func A() Op                     { return Op{Kind: OpAbort} }
 
 func upd(o ...Op) Tran { return Tran{Ops: o} }
 func ro(o ...Op) Tran  { return Tran{ReadOnly: true, Ops: o} }
@@ -131,7 +131,15 @@ func AllScenarios() []*Scenario {
 			{upd(D("p", "1"))},
 			{upd(I("c", "2", "2"), U("p", "2", "5", "x"))}}},
 
+		{Name: "alter-create-index-vs-commits", Group: "idx", Init: pc, Admin: []AdminOp{{Kind: "altercreate", Table: "p", Mode: 'i', Cols: []string{"d"}}}, Clients: [][]Tran{
+			{upd(I("p", "3", "y")), upd(I("p", "4", "z"))},
+			{upd(I("t", "1", "1", "1"))}}},
+
 		// ---- merge / persist (C16) ----
+		{Name: "index-build-vs-pending-merge", Group: "merge", Init: pc, Admin: []AdminOp{{Kind: "altercreate", Table: "p", Mode: 'i', Cols: []string{"d"}}}, Clients: [][]Tran{
+			{upd(U("p", "2", "2", "w")), upd(D("p", "2"))}}},
+		{Name: "ensure-index-vs-commits", Group: "merge", Init: pc, Persist: true, Admin: []AdminOp{{Kind: "ensure", Table: "p", Mode: 'i', Cols: []string{"d"}}}, Clients: [][]Tran{
+			{upd(I("p", "3", "y")), upd(U("p", "3", "3", "q"))}}},
 		{Name: "three-committers-two-tables", Heavy: true, Group: "merge", Init: t3, Persist: true, Clients: [][]Tran{
 			{upd(I("t", "5", "5", "5"), I("p", "5", "x")), upd(D("t", "5"))},
 			{upd(I("p", "6", "x"), I("e", "1"))},
@@ -159,8 +167,9 @@ func AllScenarios() []*Scenario {
 // Group returns the scenarios of the given groups.
 func Group(groups ...string) []*Scenario {
 	var out []*Scenario
-	for _, sc := range AllScenarios() {
-		for _, g := range groups {
+	all := AllScenarios()
+	for _, g := range groups {
+		for _, sc := range all {
 			if sc.Group == g {
 				out = append(out, sc)
 			}
